@@ -7,7 +7,7 @@
    and every rotation position (it is part of the state: histories contain MakePlan steps and any randint value).
    `members evs` is the abstract membership of DESIGN 4.0: populated / added / up minus down / removed. *)
 From Coq Require Import ZArith List Bool.
-From Verif Require Import LBP LBP_base_proofs C21_proofs.
+From Verif Require Import LBP LBP_base_proofs C21_proofs TokenAware C22_proofs.
 Import ListNotations.
 Local Open Scope Z_scope.
 
@@ -68,15 +68,18 @@ Proof.
 Qed.
 Print Assumptions C21_used_constant.
 
-(* the white-list policy never yields a host outside its list -- for every history whatsoever *)
-Theorem C21_whitelist : forall (allowed : list Z) (e : env) (evs : list event) (ord : list Z) (h : Z),
-  In h (b_plan (b_run (BWL allowed) e evs) ord) -> In h allowed.
+(* the white-list policy never yields a host whose address is not among the RESOLVED addresses of the list as written
+   (names, non-canonical spellings, several hosts per address) -- for every history whatsoever *)
+Theorem C21_whitelist : forall (names : list Z) (resolve : Z -> list Z) (addr : Z -> Z)
+                               (e : env) (evs : list event) (ord : list Z) (h : Z),
+  In h (b_plan (b_run (BWL names resolve addr) e evs) ord) -> In (addr h) (flat_map resolve names).
 Proof.
-  intros allowed e evs ord h H. unfold b_run in H.
-  assert (E : forall evs s, fold_left (b_step (BWL allowed)) evs (SRR s) = SRR (fold_left (rr_step (Some allowed)) evs s)).
+  intros names resolve addr e evs ord h H. unfold b_run in H.
+  assert (E : forall evs s, fold_left (b_step (BWL names resolve addr)) evs (SRR s) =
+                            SRR (fold_left (rr_step (b_wl (BWL names resolve addr))) evs s)).
   { induction evs0 as [|a evs0 IH]; intros; simpl; auto. }
   simpl in H. rewrite E in H. simpl in H. apply rr_plan_In in H.
-  pose proof (rr_inv_run (Some allowed) evs rr_init _ (rr_inv_init (Some allowed))) as [_ HM].
+  pose proof (rr_inv_run (b_wl (BWL names resolve addr)) evs rr_init _ (rr_inv_init _)) as [_ HM].
   apply HM in H. destruct H as [_ H]. simpl in H. apply mem_In. exact H.
 Qed.
 Print Assumptions C21_whitelist.
@@ -111,6 +114,46 @@ Proof.
   intros target b e evs ord Hd child p. exact (df_plan_facts target child (C21_nodup b e evs ord Hd)).
 Qed.
 Print Assumptions C21_default.
+
+(* TokenAwarePolicy over any built-in policy is itself a load-balancing policy: for routed and unrouted statements, any
+   duplicate-free replica list in any order, any up flags that are only true for hosts the policy was told about (the cluster
+   calls on_up/on_add before host.set_up() and set_down() before on_down/on_remove): no duplicates and exactly the live hosts
+   that are not IGNORED -- in particular replicas that were NOT promoted (REMOTE, or not marked up yet) stay in the plan *)
+Theorem C21_token_aware : forall (routed : bool) (up : Z -> bool) (order : list Z)
+                                 (b : base) (e : env) (evs : list event) (ord : list Z),
+  delivered evs -> NoDup order ->
+  (forall h, In h order -> up h = true -> members evs h = true) ->
+  let s := b_run b e evs in
+  let p := ta_plan routed up (b_distance b s) order (b_plan s ord) in
+  NoDup p /\ (forall h, In h p <-> members evs h = true /\ b_distance b s h <> IGNORED).
+Proof.
+  intros routed up order b e evs ord Hd Hn Hup s p. split.
+  - unfold p. destruct routed; [apply ta_nodup; [exact Hn|]|]; exact (C21_nodup b e evs ord Hd).
+  - intros h. split.
+    + intros H. apply ta_nothing_added in H. destruct H as [H|[H1 [H2 H3]]].
+      * exact (proj1 (C21_exact b e evs ord h Hd) H).
+      * split; [exact (Hup h H1 H2)|]. fold s. rewrite H3. discriminate.
+    + intros H. apply ta_nothing_lost. exact (proj2 (C21_exact b e evs ord h Hd) H).
+Qed.
+Print Assumptions C21_token_aware.
+
+(* one on_up = one atomic step is an assumption about the code (the bucket is read, tested and written back inside one
+   `with self._hosts_lock`; checks/C21.py audits that on the source).  With the lock held the two halves are on_up: *)
+Theorem C21_locked_is_atomic : forall (s : dca_state) (h : Z),
+  dca_on_up s h = dca_up_write (dca_infer s h) h (dca_up_read (dca_infer s h) h).
+Proof. reflexivity. Qed.
+Print Assumptions C21_locked_is_atomic.
+
+(* ... and it is necessary: if another on_up runs between the read and the write-back, a host that was announced up and
+   is LOCAL is in no plan (hosts 1 and 2 of the local DC come up together) *)
+Theorem C21_unlocked_refuted : exists (s : dca_state) (h1 h2 : Z),
+  let s' := dca_up_write (dca_on_up s h2) h1 (dca_up_read s h1) in
+  dca_distance s' h2 = LOCAL /\ ~ In h2 (dca_plan s') /\ In h1 (dca_plan s').
+Proof.
+  exists (dca_init 1 0 [] {| e_dc := [(1, 1); (2, 1)]; e_rack := [] |}), 1, 2.
+  vm_compute. split; [reflexivity|]. split; [|auto]. intros [H|[]]. discriminate.
+Qed.
+Print Assumptions C21_unlocked_refuted.
 
 (* the hypotheses are satisfiable by a non-trivial history: three DCs interleaved in the initial list, a host without a
    datacenter, local_dc inferred late from contact point 1, a location change, a removal *)
